@@ -1,6 +1,6 @@
 (* Update.v — logical model of the commands that write to an existing archive path
    (cli/src/command/append.rs, update.rs, delete.rs, commons.rs run_transform_entry),
-   as repaired by the fix: commits ff5cb171, d6f70cbe, 82c7cf0b (update) and db651618 (append).
+   as repaired by the fix: commits ff5cb171, d6f70cbe, 82c7cf0b, a048f63a (update) and db651618 (append).
 
    Part 1 (C11): an archive's logical content is the ordered list of its entries
    (solid blocks and part boundaries flattened: they do not change the order in which
@@ -114,7 +114,29 @@ Fixpoint pass_flags (excl : list bytes) (cond : N) (a : archive) (targets : list
     end
   end.
 
+(* update.rs after collect_items (commit a048f63a): overlapping file arguments (-r d d/a, ./d/a d/a)
+   name an entry more than once; the first walked path of every entry name is kept
+   (let mut seen = HashSet::new(); target_items.retain(|p| seen.insert(EntryName::from_lossy(p)))) *)
+Fixpoint dedup_seen (seen : list bytes) (l : list node) : list node :=
+  match l with
+  | [] => []
+  | n :: r => if mem (node_name n) seen then dedup_seen seen r
+              else n :: dedup_seen (node_name n :: seen) r
+  end.
+Definition dedup_names (l : list node) : list node := dedup_seen [] l.
+(* the paths update works on: what the walker yields, filtered, one per entry name *)
+Definition update_targets (keep_dir : bool) (walk : list node) : list node :=
+  dedup_names (filter (wanted keep_dir) walk).
+
 Definition update_cmd (keep_dir keep_ts : bool) (excl : list bytes) (cond : N)
+           (a : archive) (walk : list node) : res archive :=
+  do items <- collect keep_dir walk;
+  let '(kept, jobs, rest) := update_pass excl cond a (dedup_names items) [] in
+  do new <- build keep_ts (jobs ++ rest);
+  Ok (kept ++ new).
+(* the command as it was before a048f63a: every walked path is a target, a new path named twice is
+   archived twice (kept for the record: C11_update_overlap_unrepaired_refuted) *)
+Definition update_cmd_orig (keep_dir keep_ts : bool) (excl : list bytes) (cond : N)
            (a : archive) (walk : list node) : res archive :=
   do items <- collect keep_dir walk;
   let '(kept, jobs, rest) := update_pass excl cond a items [] in
